@@ -53,19 +53,22 @@ func init() {
 
 type rfVal struct{ id int }
 
+// rfGen: val/err/hasRel are written by the resolver before retA is stored and must only be
+// read after Ret() returned non-zero (acquire/release through the atomic), see the accessors.
 type rfGen struct {
-	g          int
-	val        *rfVal
-	err        error
-	hasRel     bool
-	enter, ret int64
-	ctxEpoch   int64
-	relCount   atomic.Int64
-	relStamp   atomic.Int64
-	invalid    atomic.Int64 // stamp at which the harness was about to call released()
-	released   func()
-	ctx        context.Context
-	gate       chan struct{}
+	g        int
+	valF     *rfVal
+	errF     error
+	relF     bool
+	enter    int64
+	retA     atomic.Int64
+	ctxEpoch int64
+	relCount atomic.Int64
+	relStamp atomic.Int64
+	invalid  atomic.Int64 // stamp at which the harness was about to call released()
+	released func()
+	ctx      context.Context
+	gate     chan struct{}
 }
 
 type rfHolder struct {
@@ -119,6 +122,28 @@ func newRfWorld(c *mon.Case, keepUnref, sameValue, withCtx bool, ctx context.Con
 	return w
 }
 
+// Ret returns the stamp at which the resolver call returned (0 = not yet).
+func (g *rfGen) Ret() int64 { return g.retA.Load() }
+
+// Val returns the resolved value once the call has returned.
+func (g *rfGen) Val() *rfVal {
+	if g.retA.Load() == 0 {
+		return nil
+	}
+	return g.valF
+}
+
+// Err returns the resolver error once the call has returned.
+func (g *rfGen) Err() error {
+	if g.retA.Load() == 0 {
+		return nil
+	}
+	return g.errF
+}
+
+// HasRel reports whether the call returned a release function.
+func (g *rfGen) HasRel() bool { return g.retA.Load() != 0 && g.relF }
+
 func (w *rfWorld) resolver(ctx context.Context, released func()) (*rfVal, func(), error) {
 	c := w.c
 	gen := &rfGen{ctx: ctx, released: released, ctxEpoch: w.ctxEpoch.Load(), gate: make(chan struct{})}
@@ -154,26 +179,26 @@ func (w *rfWorld) resolver(ctx context.Context, released func()) (*rfVal, func()
 	}
 	var rel func()
 	mkRel := func() func() {
-		gen.hasRel = true
+		gen.relF = true
 		return func() { w.releaseFn(gen) }
 	}
 	switch outcome {
 	case rfError:
-		gen.err = fmt.Errorf("resolve-error-g%d", gen.g)
+		gen.errF = fmt.Errorf("resolve-error-g%d", gen.g)
 	case rfErrorWithRel:
-		gen.err = fmt.Errorf("resolve-error-g%d", gen.g)
+		gen.errF = fmt.Errorf("resolve-error-g%d", gen.g)
 		rel = mkRel()
 	default:
 		if w.sameValue {
-			gen.val = w.shared
+			gen.valF = w.shared
 		} else {
-			gen.val = &rfVal{id: gen.g}
+			gen.valF = &rfVal{id: gen.g}
 		}
 		rel = mkRel()
 	}
 	w.active.Add(-1)
-	gen.ret = c.Rec("resolver", fmt.Sprintf("return g%d val=%v err=%v", gen.g, gen.val != nil, gen.err), nil)
-	return gen.val, rel, gen.err
+	gen.retA.Store(c.Rec("resolver", fmt.Sprintf("return g%d val=%v err=%v", gen.g, gen.valF != nil, gen.errF), nil))
+	return gen.valF, rel, gen.errF
 }
 
 // releaseFn runs under the RefCount mutex (clearResolvedState / stale result path).
@@ -185,10 +210,10 @@ func (w *rfWorld) releaseFn(gen *rfGen) {
 		c.Violate("release", "refcount-release-func-called-twice", "the release function of resolver call g%d ran %d times", gen.g, n)
 	}
 	gen.relStamp.Store(st)
-	if gen.val == nil || w.sameValue {
+	if gen.Val() == nil || w.sameValue {
 		return
 	}
-	if cur := w.target.GetValue(); cur == gen.val {
+	if cur := w.target.GetValue(); cur == gen.Val() {
 		c.Violate("release", "refcount-target-holds-released-value", "the release function of g%d runs while the target container still holds that value", gen.g)
 	}
 	// ctxEpoch is incremented before and after every context call: odd = a call was in flight
@@ -197,7 +222,7 @@ func (w *rfWorld) releaseFn(gen *rfGen) {
 	hs := append([]*rfHolder(nil), w.holders...)
 	w.mu.Unlock()
 	for _, h := range hs {
-		if h.gone.Load() || h.releasing.Load() || h.val.Load() != gen.val {
+		if h.gone.Load() || h.releasing.Load() || h.val.Load() != gen.Val() {
 			continue
 		}
 		if h.hasCb {
@@ -246,7 +271,7 @@ func (w *rfWorld) genList() []*rfGen {
 
 func (w *rfWorld) genOf(v *rfVal) *rfGen {
 	for _, g := range w.genList() {
-		if g.val == v {
+		if g.Val() == v {
 			return g
 		}
 	}
@@ -665,7 +690,7 @@ func refcountCase(c *mon.Case, prop string, idx int) {
 	}
 	stale := 0
 	for i, g := range gens {
-		if i < len(gens)-1 && g.hasRel {
+		if i < len(gens)-1 && g.HasRel() {
 			stale++
 		}
 	}
@@ -698,7 +723,7 @@ func refcountCase(c *mon.Case, prop string, idx int) {
 	for i, g := range gens {
 		n := g.relCount.Load()
 		last := i == len(gens)-1
-		if !g.hasRel || g.ret == 0 {
+		if !g.HasRel() || g.Ret() == 0 {
 			continue
 		}
 		if !last {
@@ -707,10 +732,10 @@ func refcountCase(c *mon.Case, prop string, idx int) {
 			}
 			continue
 		}
-		mustBeReleased := g.invalid.Load() != 0 || clearedCtx || (refsHeld == 0 && !(keepUnref && g.err == nil))
+		mustBeReleased := g.invalid.Load() != 0 || clearedCtx || (refsHeld == 0 && !(keepUnref && g.Err() == nil))
 		if n == 0 && mustBeReleased {
 			snap := mon.TakeSnapshot(true)
-			c.Violate("release", "refcount-value-not-released", "the newest value g%d has not been released at quiescence although it must be: invalidated=%v (mark at %d), context cleared=%v, references held=%d, keep-unreferenced=%v, resolver error=%v, target holds %s; goroutine states %v\n%s", g.g, g.invalid.Load() != 0, g.invalid.Load(), clearedCtx, refsHeld, keepUnref, g.err, valID(w.target.GetValue()), snap.States, snap.Dump)
+			c.Violate("release", "refcount-value-not-released", "the newest value g%d has not been released at quiescence although it must be: invalidated=%v (mark at %d), context cleared=%v, references held=%d, keep-unreferenced=%v, resolver error=%v, target holds %s; goroutine states %v\n%s", g.g, g.invalid.Load() != 0, g.invalid.Load(), clearedCtx, refsHeld, keepUnref, g.Err(), valID(w.target.GetValue()), snap.States, snap.Dump)
 		}
 	}
 
@@ -723,32 +748,32 @@ func refcountCase(c *mon.Case, prop string, idx int) {
 			g := gens[len(gens)-1]
 			if g.invalid.Load() != 0 && g.invalid.Load() > g.enter {
 				c.Violate("resolver", "refcount-released-did-not-reresolve", "released() of g%d was called (at %d) while it was the newest resolver call (entered %d), the container has a live context and %d references, yet no newer resolver call was made by quiescence", g.g, g.invalid.Load(), g.enter, refsHeld)
-			} else if g.ret == 0 {
+			} else if g.Ret() == 0 {
 				c.Violate("resolver", "refcount-resolver-stuck", "resolver call g%d has not returned at quiescence", g.g)
 			} else if g.relCount.Load() != 0 {
 				c.Violate("resolver", "refcount-not-resolved-while-referenced", "the newest value g%d was released (at %d) but no newer resolver call was made although the container has a live context and %d references at quiescence", g.g, g.relStamp.Load(), refsHeld)
 			} else {
 				// result delivered to the target containers and to every held reference with a callback
-				if g.err == nil {
-					if !w.sameValue && w.target.GetValue() != g.val {
+				if g.Err() == nil {
+					if !w.sameValue && w.target.GetValue() != g.Val() {
 						c.Violate("resolver", "refcount-target-not-updated", "the newest result g%d is not in the target container at quiescence (holds %s)", g.g, valID(w.target.GetValue()))
 					}
-				} else if pe := w.targetErr.GetValue(); pe == nil || *pe != g.err {
-					c.Violate("resolver", "refcount-target-error-not-updated", "the newest result g%d is the error %v but the error container holds %v", g.g, g.err, pe)
+				} else if pe := w.targetErr.GetValue(); pe == nil || *pe != g.Err() {
+					c.Violate("resolver", "refcount-target-error-not-updated", "the newest result g%d is the error %v but the error container holds %v", g.g, g.Err(), pe)
 				}
 				for _, hr := range heldNow {
 					if !hr.h.hasCb {
 						continue
 					}
 					ok := hr.h.lastRes.Load()
-					if g.err == nil {
-						ok = ok && hr.h.val.Load() == g.val
+					if g.Err() == nil {
+						ok = ok && hr.h.val.Load() == g.Val()
 					} else {
 						pe := hr.h.lastErr.Load()
-						ok = ok && pe != nil && *pe == g.err
+						ok = ok && pe != nil && *pe == g.Err()
 					}
 					if !ok {
-						c.Violate("resolver", "refcount-reference-not-told", "held reference %d (callbacks received: %d) was not told the newest result g%d (val %s err %v): last callback resolved=%v val=%s", hr.h.id, hr.h.cbCount.Load(), g.g, valID(g.val), g.err, hr.h.lastRes.Load(), valID(hr.h.val.Load()))
+						c.Violate("resolver", "refcount-reference-not-told", "held reference %d (callbacks received: %d) was not told the newest result g%d (val %s err %v): last callback resolved=%v val=%s", hr.h.id, hr.h.cbCount.Load(), g.g, valID(g.Val()), g.Err(), hr.h.lastRes.Load(), valID(hr.h.val.Load()))
 						break
 					}
 				}
@@ -759,11 +784,11 @@ func refcountCase(c *mon.Case, prop string, idx int) {
 	// ----- consumers blocked although the newest result is delivered
 	if liveCtx && len(gens) > 0 {
 		g := gens[len(gens)-1]
-		if g.ret != 0 && g.relCount.Load() == 0 && g.invalid.Load() == 0 {
+		if g.Ret() != 0 && g.relCount.Load() == 0 && g.invalid.Load() == 0 {
 			for _, cs := range consumers {
 				if cs.kind != "access" && !cs.returned.Load() && cs.cancelStamp.Load() == 0 {
 					if mon.QuiesceConfirmed(50*time.Millisecond, 5*time.Second) && !cs.returned.Load() {
-						c.Violate("consumer", "refcount-consumer-blocked-with-result", "%s of consumer %d is still blocked at quiescence although the newest resolver call g%d returned (val %s, err %v) and its result is current", cs.kind, cs.id, g.g, valID(g.val), g.err)
+						c.Violate("consumer", "refcount-consumer-blocked-with-result", "%s of consumer %d is still blocked at quiescence although the newest resolver call g%d returned (val %s, err %v) and its result is current", cs.kind, cs.id, g.g, valID(g.Val()), g.Err())
 					}
 				}
 			}
@@ -790,11 +815,11 @@ func refcountCase(c *mon.Case, prop string, idx int) {
 				c.Violate("access", "refcount-access-ctx-not-cancelled", "Access callback invocation %d of consumer %d still runs on value g%d with a live context at quiescence although that value was released (invalidated) at %d", inv.n, cs.id, g.g, g.relStamp.Load())
 			}
 		}
-		if !cs.returned.Load() && cs.cancelStamp.Load() == 0 && liveCtx && newest != nil && newest.err == nil && newest.relCount.Load() == 0 && newest.ret != 0 && !w.sameValue {
+		if !cs.returned.Load() && cs.cancelStamp.Load() == 0 && liveCtx && newest != nil && newest.Err() == nil && newest.relCount.Load() == 0 && newest.Ret() != 0 && !w.sameValue {
 			// Access is still inside: it must be running its callback on the newest value
 			running := false
 			for _, inv := range invs {
-				if !inv.done.Load() && inv.val == newest.val {
+				if !inv.done.Load() && inv.val == newest.Val() {
 					running = true
 				}
 			}
@@ -831,7 +856,7 @@ func refcountCase(c *mon.Case, prop string, idx int) {
 	}
 	c.Count("final_all_released_audits", 1)
 	for _, g := range w.genList() {
-		if g.hasRel && g.relCount.Load() != 1 {
+		if g.HasRel() && g.relCount.Load() != 1 {
 			c.Violate("release", "refcount-release-count-final", "after releasing every reference and clearing the context the release function of g%d has run %d times, want exactly once", g.g, g.relCount.Load())
 			break
 		}
@@ -858,7 +883,7 @@ func refcountCase(c *mon.Case, prop string, idx int) {
 			}
 			found := false
 			for _, g := range w.genList() {
-				if g.err != nil && g.err == cs.err && g.ret != 0 && g.ret < cs.ret {
+				if g.Err() != nil && g.Err() == cs.err && g.Ret() != 0 && g.Ret() < cs.ret {
 					found = true
 				}
 			}
@@ -956,7 +981,7 @@ func judgeAccess(c *mon.Case, w *rfWorld, cs *rfConsumer, cancelled bool) {
 		}
 	}
 	for _, g := range gens {
-		if g.err != nil && g.err == cs.err && g.ret != 0 && g.ret < cs.ret {
+		if g.Err() != nil && g.Err() == cs.err && g.Ret() != 0 && g.Ret() < cs.ret {
 			return
 		}
 	}
